@@ -235,6 +235,37 @@ Definition upd_coords_fiber (sg k : Z) (es : ifib) : ifib :=
   let es' := map (fun ct => (sg * fst ct + k, snd ct)) es in
   if nondecreasing (map fst es') then es' else sort_fib es'.
 
+(* updateCoords with an arbitrary coordinate function (table + offset).  "The unique
+   property is not checked" (docstring): the documented domain is functions that keep the
+   coordinates of each fiber distinct; [step] refuses (BadAddress) a case outside it, and
+   this per-fiber function leaves a fiber alone when its images collide. *)
+Fixpoint zassoc (c : Z) (tbl : list (Z * Z)) : option Z :=
+  match tbl with
+  | [] => None
+  | (k, v) :: tbl' => if k =? c then Some v else zassoc c tbl'
+  end.
+Definition tbl_fn (tbl : list (Z * Z)) (off : Z) (c : Z) : Z :=
+  match zassoc c tbl with Some v => v | None => c + off end.
+Fixpoint nodupb (l : list Z) : bool :=
+  match l with
+  | [] => true
+  | x :: l' => negb (existsb (Z.eqb x) l') && nodupb l'
+  end.
+Definition upd_coords_fiber_g (f : Z -> Z) (es : ifib) : ifib :=
+  let es' := map (fun ct => (f (fst ct), snd ct)) es in
+  if nodupb (map fst es') then
+    if nondecreasing (map fst es') then es' else sort_fib es'
+  else es.
+(* every fiber [depth] levels below keeps distinct coordinates under f *)
+Fixpoint distinct_below (depth : nat) (f : Z -> Z) (es : ifib) : bool :=
+  match depth with
+  | O => nodupb (map f (map fst es))
+  | S k => forallb (fun ct => match snd ct with
+                              | INode _ _ es' => distinct_below k f es'
+                              | ILeaf _ => true
+                              end) es
+  end.
+
 (* Payload.isEmpty for a leaf / Fiber.isEmpty *)
 Fixpoint i_is_empty (d : Z) (t : itree) : bool :=
   match t with
@@ -265,6 +296,8 @@ Inductive op :=
 | OSetItem (path : list Z) (pos : Z) (oc ov : option Z)
 | OClear (path : list Z)
 | OUpdCoords (path : list Z) (depth : nat) (sg k : Z)
+| OUpdCoordsTbl (path : list Z) (depth : nat) (tbl : list (Z * Z)) (off : Z)
+      (* updateCoords with func = c |-> tbl[c] if present else c + off (any re-ordering) *)
 | OUpdPayloads (path : list Z) (depth : nat) (k : Z)
 | OShapeRef (path : list Z) (lo hi step : Z)
 | OGetPos (path : list Z) (c : Z) (sp : option nat)            (* fiber.getPosition(c, start_pos) *)
@@ -409,6 +442,16 @@ Definition step (s : st) (o : op) : st * outcome :=
   | OUpdCoords path depth sg k =>
     if Nat.ltb (length path + depth) n && ((sg =? 1) || (sg =? -1))
     then local s path (fun _ es => Some (below depth (upd_coords_fiber sg k) es))
+    else (s, BadAddress)
+  | OUpdCoordsTbl path depth tbl off =>
+    if Nat.ltb (length path + depth) n then
+      match fiber_at path (root_es s) with
+      | Some es =>
+        if distinct_below depth (tbl_fn tbl off) es
+        then local s path (fun _ es => Some (below depth (upd_coords_fiber_g (tbl_fn tbl off)) es))
+        else (s, BadAddress)
+      | None => (s, BadAddress)
+      end
     else (s, BadAddress)
   | OUpdPayloads path depth k =>
     if Nat.eqb (S (length path + depth)) n
